@@ -8,6 +8,12 @@ def run(ctx):
     if b:
         ctx.correspond(b, "TestVerifC13", "svdriver_c13", "c13",
                        env={"VERIF_N": 500 if quick else 12000}, timeout=600 if quick else 3000)
+    if not quick:
+        # supporting evidence only: the same harness under the race detector (a reported race makes the
+        # test binary exit non-zero, which the framework treats as a harness crash = violation)
+        br = ctx.go_test_binary("task", "h_task_race", race=True)
+        if br:
+            ctx.correspond(br, "TestVerifC13", "svdriver_c13", "c13race", env={"VERIF_N": 1500}, timeout=3000)
     return ctx.finish(
         level="proof",
         rule="the real BackgroundTaskManager is run on 7 hand-written and N random scenarios (capacity 1-3, silence "
